@@ -83,6 +83,8 @@ def main():
              "kind_free_text": "contract-based deductive verifier for a Python subset: symbolic execution of the real AST -> SMT-LIB VCs -> z3/cvc5 portfolio; sidecar contracts in /verif/contracts, spec functions and SMT lemmas in /verif/specs"},
             {"name": "bounded", "path": "/verif/bounded", "serves_properties": sorted(have_b),
              "kind_free_text": "bounded stand-in: run-time evaluation of the same contracts / property oracles on the real code over small-scope exhaustive inputs (labelled bounded, never counted as proved)"},
+            {"name": "lean-lemmas", "path": "/verif/lemmas", "serves_properties": ["C06", "C19"],
+             "kind_free_text": "Lean 4 + Mathlib lemmas over the spec functions the contracts are stated in (L06: reach-size tiers are the dominating tiers; L19: metric axioms of the p-norm distance); re-elaborated by `lean` on every run of the property's check, scanned for sorry/axiom"},
         ],
         "checks": checks,
         "not_applicable": na,
